@@ -35,6 +35,6 @@ HoldsC18(cl, o) ==
     [] cl = "PassThroughWithoutDir" ->
          ~WithDir(o) => /\ x.saved = "" /\ x.loadedN = ""
                         /\ \A j \in DOMAIN x.recs : x.recs[j].stored = x.recs[j].orig /\ x.recs[j].atNone = x.recs[j].orig
-    [] cl = "OutsideRaises" -> (WithDir(o) /\ o.in.place = "outside") => x.saved # ""
+    [] cl = "OutsideRaises" -> (WithDir(o) /\ o.in.place # "inside") => x.saved # ""
     [] cl = "NothingWrittenOnError" -> x.saved # "" => ~x.file_exists
 =============================================================================
